@@ -33,6 +33,10 @@ func isCtxErr(err error) bool {
 
 // matchInjected reports whether err is (errors.Is / errors.As) the fault inj.
 func matchInjected(err error, inj Injected) bool {
+	if inj.Goexit {
+		// the scheduler reports a job whose goroutine exited with an error of its own
+		return err != nil && strings.Contains(err.Error(), "exited")
+	}
 	if inj.Err != nil {
 		return errors.Is(err, inj.Err)
 	}
@@ -202,7 +206,7 @@ func interpretFlow(s *Spec, scn *Scenario, e *Env) *flowModel {
 				m.val[out.Key()] = OutTag(t.Unit, k, in)
 			}
 		default:
-			if t.Fallback {
+			if t.Fallback && kind != OGoexit { // FallbackWith cannot absorb an exited goroutine
 				setFallback()
 			} else {
 				m.hard[t.Unit] = true
@@ -496,7 +500,7 @@ func CheckParallel(r *Run) []Finding {
 	canErr := s.UnitCanErr()
 	fails := func(u, elem int) bool {
 		o := e.outcomeFor(u, elem)
-		return o.K == OPanic || (o.K == OErr && canErr[u])
+		return o.K == OPanic || o.K == OGoexit || (o.K == OErr && canErr[u])
 	}
 	type unitInst struct{ u, elem int }
 	var failing []unitInst
